@@ -330,6 +330,54 @@ def run(ck: Checker):
     defs_ = [n for n in walk_shallow_func(hc.node) if isinstance(n, ast.Assign) and any(is_name(t, qn) for t in n.targets)]
     okq = len(defs_) == 1 and isinstance(defs_[0].value, ast.Call) and (dotted(defs_[0].value.func) or '').split('.')[-1] in ('Queue', 'SimpleQueue', 'LifoQueue', 'SingleLane')
     ck.ob('C18-14', hc, defs_[0] if defs_ else hc.node, okq, f'`{qn}` is created by the handler of each connection' if okq else f'`{qn}` is `{norm_text(defs_[0].value)[:50] if defs_ else "not bound in the handler"}`, not a queue made by this connection\'s handler: with two connections the responder of one can dequeue the other\'s request and write the response to the wrong socket — the requester never gets its answer and the other client\'s receiver fails on the unknown id')
+    # ------------------------------------------------------------------ C18-15
+    ck.rule('C18-15', 'every request read from a connection gets its response, also the ones queued behind a shutdown request: the responding task of a connection leaves its loop (normally) only from the handler of the timed get that found the request queue idle — not through the loop test, not elsewhere')
+    probs15 = []
+    loops15 = [w for w in walk_shallow_func(kp.node) if isinstance(w, ast.While) and any(isinstance(c, ast.Call) and method_of(c)[1] in ('get', 'get_nowait') and is_name(method_of(c)[0], qn) for c in ast.walk(w))]
+    ck.need(loops15, f'{kp.key}: responding loop not found')
+    lp15 = loops15[0]
+    if not (isinstance(lp15.test, ast.Constant) and lp15.test.value in (True, 1)):
+        probs15.append(f'L{lp15.lineno}: the loop is left through its test `{norm_text(lp15.test)}`, whatever the request queue still holds: requests queued behind the one being answered never get a response')
+    idle_handlers = []
+    for tr in [t for t in ast.walk(lp15) if isinstance(t, ast.Try)]:
+        if any(isinstance(c, ast.Call) and method_of(c)[1] in ('get', 'get_nowait') and is_name(method_of(c)[0], qn) for b in tr.body for c in ast.walk(b)):
+            idle_handlers += [h for h in tr.handlers if h.type is not None and any((dotted(e) or '').split('.')[-1] in ('TimeoutError', 'QueueEmpty', 'Empty') for e in (h.type.elts if isinstance(h.type, ast.Tuple) else [h.type]))]
+    inside = {id(x) for h in idle_handlers for x in ast.walk(h)}
+    for x in ast.walk(lp15):
+        if isinstance(x, (ast.Return, ast.Break)) and id(x) not in inside:
+            # a break of an inner loop is not an exit of this one
+            inner = [w for w in ast.walk(lp15) if isinstance(w, (ast.While, ast.For, ast.AsyncFor)) and w is not lp15 and any(y is x for y in ast.walk(w))]
+            if isinstance(x, ast.Break) and inner:
+                continue
+            probs15.append(f'L{x.lineno}: `{norm_text(x)}` leaves the responding loop outside the handler of the idle request queue')
+    ck.ob('C18-15', kp, lp15, not probs15, '; '.join(probs15) if probs15 else f'the responding loop is left only from the handler of the timed get on `{qn}` ({len(idle_handlers)} handler(s))')
+    # ------------------------------------------------------------------ C18-16
+    ck.rule('C18-16', 'a response that arrives in time is delivered: the clock of `response_timeout` starts when the request has been handed to a connection — the time stamp queued with the future is taken after the enqueue call of the same iteration, so that waiting for room in the client\'s pending-requests queue (back-pressure) does not count against the response')
+    enq = mod.func('SocketClient.stream._enqueue')
+    cfg16 = build_cfg(enq, ck.repo, make_fallible(Scope(enq), iters=set(), calls=set()))
+    ck.analysed_func(enq, cfg16)
+    from mpsa.flow import reaching_defs as _rd16
+
+    sc16 = Scope(enq)
+    calls16 = [n for n in cfg16.nodes if isinstance(n.ast, ast.Assign) and isinstance(n.ast.value, ast.Call) and (sc16.canon(n.ast.value.func) or dotted(n.ast.value.func) or '').endswith('_enqueue') and n.loops]
+    puts16 = []
+    for n in cfg16.nodes:
+        a = header_expr(n)
+        for c in (calls_in(a) if a is not None else []):
+            tup = next((x for x in list(c.args) if isinstance(x, ast.Tuple) and len(x.elts) == 3), None)
+            if tup is not None and n.loops and isinstance(tup.elts[2], ast.Name):
+                puts16.append((n, tup.elts[2].id))
+    ck.need(calls16 and puts16, f'{enq.key}: enqueue call / (x, future, time stamp) hand-over not found')
+    probs16 = []
+    loop16 = cfg16.nodes[calls16[0].loops[-1]] if calls16[0].loops else None
+    for pn, tv in puts16:
+        for di in _rd16(cfg16, tv, start=cfg16.entry).get(pn.id, frozenset()):
+            dn = cfg16.nodes[di]
+            # is the time stamp taken on a path of this iteration that has not passed the enqueue call yet?
+            pth = path_avoiding(cfg16, [e for e in cfg16.succ[loop16.id] if e.kind == 'iter'] if loop16 is not None else [cfg16.entry], {di}, avoid={c_.id for c_ in calls16})
+            if pth is not None:
+                probs16.append(f'L{dn.lineno}: `{norm_text(dn.ast)[:40]}` is taken before the request is enqueued (L{calls16[0].lineno}): the wait for room in the pending-requests queue counts against `response_timeout`, and a response that arrives promptly is reported as TimeoutError')
+    ck.ob('C18-16', enq, puts16[0][0].ast, not probs16, '; '.join(sorted(set(probs16))) if probs16 else 'the time stamp handed over with the future is taken after the enqueue call of the iteration')
     # ------------------------------------------------------------------ C18-13
     ck.rule('C18-13', 'a response that has arrived is delivered whatever the clock says: in the consumer of SocketClient.stream and in SocketClient.request a timeout is raised only by the wait on the future itself (`fut.result(timeout=…)`, which returns a result that is already there even for a timeout <= 0), never by comparing the clock (EXITS)', minimum=1)
     for qn in ('SocketClient.stream', 'SocketClient.request'):
